@@ -11,7 +11,10 @@ import (
 	"strings"
 
 	"github.com/opsidian/parsley/ast"
+	"github.com/opsidian/parsley/data"
+	"github.com/opsidian/parsley/parser"
 	"github.com/opsidian/parsley/parsley"
+	"github.com/opsidian/parsley/text"
 )
 
 func init() { components["treepass"] = treepassMain }
@@ -147,6 +150,65 @@ func tpBuild(tree []tpNode, rec *tpRec) (root parsley.Node, nodes []parsley.Node
 	return
 }
 
+// tpBuild2: like tpBuild, but transformers and checkers record into different logs (parsley.Parse runs both passes)
+func tpBuild2(tree []tpNode, trec, crec *tpRec) (parsley.Node, []parsley.Node) {
+	nodes := make([]parsley.Node, len(tree))
+	var mk func(i int) parsley.Node
+	mk = func(i int) parsley.Node {
+		nd := tree[i-1]
+		pos := parsley.Pos(10 * i)
+		var n parsley.Node
+		switch nd.K {
+		case "term":
+			n = ast.NewTerminalNode("t", "t"+strconv.Itoa(i), i, pos, pos+1)
+		case "empty":
+			n = ast.EmptyNode(100000 + i)
+		default:
+			var in parsley.Interpreter
+			switch nd.Cap {
+			case "none":
+				in = nil
+			case "checker":
+				in = checkerI{plainI{crec}}
+			case "transformer":
+				in = transformerI{plainI{trec}}
+			case "both":
+				in = both2I{plainI{trec}, plainI{crec}}
+			default:
+				in = plainI{crec}
+			}
+			if len(nd.Kids) == 0 {
+				n = ast.NewEmptyNonTerminalNode("n"+strconv.Itoa(i), pos, in)
+			} else {
+				kids := make([]parsley.Node, len(nd.Kids))
+				for k, c := range nd.Kids {
+					kids[k] = mk(c)
+				}
+				n = ast.NewNonTerminalNode("n"+strconv.Itoa(i), kids, in)
+			}
+		}
+		nodes[i-1] = n
+		return n
+	}
+	return mk(1), nodes
+}
+
+// both2I: transformer and checker capabilities with separate recorders
+type both2I struct {
+	t plainI
+	c plainI
+}
+
+func (b both2I) Eval(ctx interface{}, n parsley.NonTerminalNode) (interface{}, parsley.Error) {
+	return b.c.Eval(ctx, n)
+}
+func (b both2I) StaticCheck(ctx interface{}, n parsley.NonTerminalNode) (interface{}, parsley.Error) {
+	return b.c.check(n)
+}
+func (b both2I) TransformNode(ctx interface{}, n parsley.Node) (parsley.Node, parsley.Error) {
+	return b.t.transform(n)
+}
+
 func tpRender(n parsley.Node) string {
 	switch v := n.(type) {
 	case ast.EmptyNode:
@@ -210,6 +272,33 @@ func tpObserve(tree []tpNode, list bool, stopK, failAt int) J {
 			r = tpRender(res)
 		}
 		obs["transform"] = J{"log": nz(rec.log), "failed": terr != nil, "result": r}
+		// parsley.Parse with transformation and static checking enabled, on a parser that returns this tree:
+		// api1: the transformer of node failAt fails; api2: the checker of node failAt fails
+		api := J{}
+		for variant := 1; variant <= 2; variant++ {
+			trec, crec := &tpRec{}, &tpRec{}
+			if variant == 1 {
+				trec.failAt = failAt
+			} else {
+				crec.failAt = failAt
+			}
+			// two recorders: transformers log into trec, checkers into crec
+			root, _ = tpBuild2(tree, trec, crec)
+			f := text.NewFile("f", []byte("x"))
+			ctx := parsley.NewContext(parsley.NewFileSet(f), text.NewReader(f))
+			ctx.EnableTransformation()
+			ctx.EnableStaticCheck()
+			pr := parser.Func(func(c *parsley.Context, l data.IntMap, pos parsley.Pos) (parsley.Node, data.IntSet, parsley.Error) {
+				return root, data.EmptyIntSet, nil
+			})
+			node, perr := parsley.Parse(ctx, pr)
+			k := strconv.Itoa(variant)
+			api["tlog"+k], api["clog"+k], api["failed"+k] = nz(trec.log), nz(crec.log), perr != nil
+			if (node == nil) == (perr == nil) {
+				api["failed"+k] = "neither or both of node and error"
+			}
+		}
+		obs["api"] = api
 		evaluable := true
 		for _, nd := range tree {
 			if nd.K == "nt" && nd.Cap == "none" {
@@ -237,6 +326,7 @@ func treepassMain(mode string, a args) {
 		type pass struct {
 			FailAt    int `json:"failAt"`
 			Check     J   `json:"check"`
+			Api       J   `json:"api"`
 			Transform J   `json:"transform"`
 			Eval      J   `json:"eval"`
 		}
@@ -282,6 +372,7 @@ func treepassMain(mode string, a args) {
 				cmp(fmt.Sprintf("StaticCheck failAt=%d", p.FailAt), o["check"], p.Check)
 				cmp(fmt.Sprintf("Transform failAt=%d", p.FailAt), o["transform"], p.Transform)
 				cmp(fmt.Sprintf("Evaluate failAt=%d", p.FailAt), o["eval"], p.Eval)
+				cmp(fmt.Sprintf("Parse with transformation+static check, failAt=%d", p.FailAt), o["api"], p.Api)
 			}
 			if len(samples) < 3 && cases%307 == 11 {
 				samples = append(samples, json.RawMessage(append([]byte{}, line...)))
